@@ -104,13 +104,13 @@ def coq_project():
             raise RuntimeError("coq_makefile failed:\n" + out)
 
 
-def coq_build(targets=None, timeout=3000):
+def coq_build(targets=None, timeout=3000, keep_going=False):
     """Full .vo build (never -vos). targets: list of .v paths relative to coq/ (their .vo and
     everything they depend on), or None for everything. Returns (ok, failing_file, log)."""
     with locked("coq"):
         coq_project()
         tg = " ".join(t[:-2] + ".vo" for t in targets) if targets else ""
-        rc, out = sh("timeout %d make -j%d %s" % (timeout, NPROC, tg), cwd=COQ, timeout=timeout + 30)
+        rc, out = sh("timeout %d make %s -j%d %s" % (timeout, "-k" if keep_going else "", NPROC, tg), cwd=COQ, timeout=timeout + 30)
     if rc == 0:
         return True, None, out
     m = re.search(r'File "\./([^"]+)", line (\d+)', out)
